@@ -1,6 +1,7 @@
 import CDVProofs.Tables
 import CDVProofs.EncTables
 import CDVProofs.Iter
+import CDVProofs.Canon
 /-! # The operand tables survive `from_code` → `to_code`: generic part (one table) -/
 namespace CDV
 
@@ -50,29 +51,83 @@ theorem sim_set_first (hk : KeyEquiv keyEq) (args : List α) (d : ToArgs α) (e 
     obtain ⟨rfl, _⟩ := hadd
     exact ⟨t, ht, hs'⟩
 
+theorem insertSorted_length_new (x : Nat) : ∀ (l : List Nat), x ∉ l → (insertSorted x l).length = l.length + 1
+  | [], _ => rfl
+  | y :: ys, h => by
+    simp only [List.mem_cons, not_or] at h
+    simp only [insertSorted]
+    split
+    · rfl
+    · rw [if_neg h.1]
+      simp [insertSorted_length_new x ys h.2]
+
+theorem foldl_insertSorted_length : ∀ (l acc : List Nat), l.Nodup → (∀ x ∈ l, x ∉ acc) →
+    (l.foldl (fun a t => insertSorted t a) acc).length = l.length + acc.length
+  | [], acc, _, _ => by simp
+  | x :: l, acc, hn, hd => by
+    simp only [List.nodup_cons] at hn
+    simp only [List.foldl_cons, List.length_cons]
+    rw [foldl_insertSorted_length l (insertSorted x acc) hn.2 ?_, insertSorted_length_new x acc (hd x (by simp))]
+    · omega
+    · intro y hy hin
+      rw [insertSorted_mem] at hin
+      rcases hin with rfl | hin
+      · exact hn.1 hy
+      · exact hd y (by simp [hy]) hin
+
+/-- a list of distinct naturals that is exactly `{0, …, n-1}` has `n` elements -/
+theorem nodup_cover_length (l : List Nat) (n : Nat) (hn : l.Nodup) (hlt : ∀ x ∈ l, x < n) (hall : ∀ i, i < n → i ∈ l) : l.length = n := by
+  have hs : SortedLt (l.foldl (fun a t => insertSorted t a) []) := foldl_insertSorted_sorted _ _ (by simp [SortedLt])
+  have hr : SortedLt (List.range n) := by
+    simp only [SortedLt, List.pairwise_iff_getElem]
+    intro i j hi hj hij
+    simp only [List.getElem_range]
+    exact hij
+  have hm : ∀ x, x ∈ l.foldl (fun a t => insertSorted t a) [] ↔ x ∈ List.range n := by
+    intro x
+    rw [foldl_insertSorted_mem]
+    simp only [List.not_mem_nil, or_false, List.mem_range]
+    exact ⟨hlt x, hall x⟩
+  have := congrArg List.length (sorted_ext _ _ hs hr hm)
+  rw [foldl_insertSorted_length l [] hn (by simp)] at this
+  simpa using this
+
 /-- an encoder table that already holds the whole original table -/
 structure TableComplete (keyEq : α → α → Bool) (args : List α) (e : FromArgs α) : Prop where
   vals : ∀ i a, (i, a) ∈ e.iToArg → args[i]? = some a
   nodup : (e.iToArg.map Prod.fst).Nodup
   all : ∀ i, i < args.length → i ∈ e.iToArg.map Prod.fst
   keys : ∀ a, a ∈ args → (keyFind keyEq a e.argToI).isSome = true
+  len : e.iToArg.length = args.length
+  keyVal : ∀ a i, keyFind keyEq a e.argToI = some i → ∃ b, args[i]? = some b ∧ keyEq a b = true
 
 theorem Sim.complete {args : List α} {d : ToArgs α} {e : FromArgs α} (hs : Sim keyEq args d e)
     (hall : ∀ i, i < args.length → i ∈ d.found.map Prod.fst) : TableComplete keyEq args e := by
-  refine ⟨hs.vals, by rw [hs.idx]; exact hs.nodup, by rw [hs.idx]; exact hall, ?_⟩
-  intro a ha
-  obtain ⟨i, hi, hget⟩ := List.getElem_of_mem ha
-  rw [hs.keys a]
-  exact hs.foundKey i a (hall i hi) (by rw [List.getElem?_eq_getElem hi, hget])
+  refine ⟨hs.vals, by rw [hs.idx]; exact hs.nodup, by rw [hs.idx]; exact hall, ?_, ?_, ?_⟩
+  · intro a ha
+    obtain ⟨i, hi, hget⟩ := List.getElem_of_mem ha
+    rw [hs.keys a]
+    exact hs.foundKey i a (hall i hi) (by rw [List.getElem?_eq_getElem hi, hget])
+  · have := nodup_cover_length (e.iToArg.map Prod.fst) args.length (by rw [hs.idx]; exact hs.nodup)
+      (by
+        intro x hx
+        obtain ⟨⟨k, a⟩, hm, hk⟩ := List.mem_map.mp hx
+        dsimp only at hk; subst hk
+        exact (List.getElem?_eq_some_iff.mp (hs.vals k a hm)).1)
+      (by rw [hs.idx]; exact hall)
+    simpa using this
+  · intro a i hk
+    rw [hs.keys a] at hk
+    exact (hs.keyFound a i hk).2
 
 /-- adding again an operand the decoder produced leaves a complete table complete -/
 theorem complete_add (hk : KeyEquiv keyEq) (args : List α) (e : FromArgs α) (hc : TableComplete keyEq args e)
     (idx : Nat) (a : α) (ov : Option Nat) (hget : args[idx]? = some a) (hov : ov = none ∨ ov = some idx) :
-    ∃ e' j, e.add keyEq a ov = .ok (e', j) ∧ TableComplete keyEq args e' := by
+    ∃ e' j, e.add keyEq a ov = .ok (e', j) ∧ TableComplete keyEq args e' ∧ ∃ b, args[j]? = some b ∧ keyEq a b = true := by
   have hmem : a ∈ args := List.mem_of_getElem? hget
   rcases hov with rfl | rfl
   · obtain ⟨j, hj⟩ := Option.isSome_iff_exists.mp (hc.keys a hmem)
-    exact ⟨e, j, by simp [FromArgs.add, hj, pure, Except.pure], hc⟩
+    exact ⟨e, j, by simp [FromArgs.add, hj, pure, Except.pure], hc, hc.keyVal a j hj⟩
   · have hlt : idx < args.length := by
       have := List.getElem?_eq_some_iff.mp hget
       exact this.1
@@ -83,7 +138,7 @@ theorem complete_add (hk : KeyEquiv keyEq) (args : List α) (e : FromArgs α) (h
       rw [hget] at this; cases this; rfl
     have hsame : ∀ v, (idx, v) ∈ e.iToArg → v = a := by
       intro v hv; have := hc.vals idx v hv; rw [hget] at this; cases this; rfl
-    refine ⟨⟨e.iToArg, keySet keyEq a idx e.argToI⟩, idx, ?_, ⟨hc.vals, hc.nodup, hc.all, ?_⟩⟩
+    refine ⟨⟨e.iToArg, keySet keyEq a idx e.argToI⟩, idx, ?_, ⟨hc.vals, hc.nodup, hc.all, ?_, hc.len, ?_⟩, ⟨a, hget, hk.refl a⟩⟩
     · simp only [FromArgs.add, FromArgs.set, hold, holda, hk.refl a, if_true, bind, Except.bind, pure, Except.pure]
       congr 3
       exact map_replace_same e.iToArg idx a hsame
@@ -93,6 +148,12 @@ theorem complete_add (hk : KeyEquiv keyEq) (args : List α) (e : FromArgs α) (h
       split
       · rfl
       · exact hc.keys x hx
+    · intro x i hx
+      dsimp only at hx
+      rw [keyFind_keySet hk] at hx
+      split at hx
+      · next hxa => cases hx; exact ⟨a, hget, hxa⟩
+      · exact hc.keyVal x i hx
 
 theorem assoc?_of_mem_nodup {β} (k : Nat) (v : β) : ∀ (l : List (Nat × β)), (l.map Prod.fst).Nodup → (k, v) ∈ l → assoc? k l = some v
   | [], _, h => by simp at h
